@@ -162,14 +162,10 @@ Section Emitted.
     - rewrite fx_Name in H. inversion H; subst; discriminate.
     - rewrite fx_Const in H. inversion H; subst; discriminate.
     - rewrite fx_Attr in H. crush H. inversion H; subst; discriminate.
-    - assert (Hcases : (exists v a, e = Attr v a) \/ (exists v a s, e = Subscript (Attr v a) s) \/ plain_callee e).
-      { destruct e; try (right; right; exact I); try (left; eauto; fail).
-        match goal with |- context [plain_callee (Subscript ?x ?y)] => destruct x end;
-          try (right; right; exact I).
-        right; left; eauto. }
+    - pose proof (callee_cases e) as Hcases.
       assert (Hcall : is_call e' = true -> False) by (intros Hc; destruct e'; discriminate).
       apply Hcall.
-      destruct Hcases as [(v & a & ->)|[(v & a & s & ->)|Hplain]].
+      destruct Hcases as [(v & a & ->)|[(v & a & s & ->)|[(ps0 & b0 & ->)|Hplain]]].
       + rewrite fx_Call_method in H. crush H. inversion H; subst.
         match goal with Hp : process_method_call _ _ _ _ _ _ _ = _ |- _ => eapply pmc_is_call; exact Hp end.
       + rewrite fx_Call_param in H. crush H.
@@ -179,6 +175,7 @@ Section Emitted.
           destruct (get_method_and_class _ _ _) as [[? [?|[?|]]]|]; try discriminate;
           destruct (literal_eval _); try discriminate; inversion Hp as [[Hn Ht He]] end.
         destruct (cb_rw _); reflexivity.
+      + rewrite fx_Call_lambda in H. crush H. destruct (called_ok ps0 args kwn kwv); [crush H|]; inversion H; reflexivity.
       + rewrite fx_Call_plain in H by exact Hplain. crush H.
         match type of H with context [match ?f with _ => _ end] => destruct f end; try (inversion H; reflexivity).
         destruct (find_func (w_ft W) id) as [fn|]; [|inversion H; reflexivity].
@@ -305,8 +302,9 @@ Section Emitted2.
       split; [exact Hc | apply swithin_within; exact Hs].
     - inversion Hex; subst best. cbn [mr_obj mr_node mr_ev mr_ty] in H.
       unfold node_of_plan in H.
-      pose proof (method_callbacks_rewritten W bo m (Call (Attr v' a) (map aexpr a2) (map fst k2) (map (fun kv => aexpr (snd kv)) k2))) as Hrw.
-      destruct (method_callbacks W bo m _) as [site evs] eqn:Emc. cbn [fst] in Hrw. inversion H; subst out t ev.
+      destruct (callbacks_of W tv a (bo, m)) as [cbo cm] eqn:Ecb.
+      pose proof (method_callbacks_rewritten W cbo cm (Call (Attr v' a) (map aexpr a2) (map fst k2) (map (fun kv => aexpr (snd kv)) k2))) as Hrw.
+      destruct (method_callbacks W cbo cm _) as [site evs] eqn:Emc. cbn [fst] in Hrw. inversion H; subst out t ev.
       assert (Hnsn : forall bo' m' a' k' t' f', PNone (A:=aarg) = PStatic bo' m' a' k' t' f' -> False) by discriminate.
       destruct (resolve_static_inv _ _ _ _ _ _ _ _ _ _ _ _ _ _ (fun _ _ _ _ _ _ E => match Hnsn _ _ _ _ _ _ E with end) Er)
         as (mcls & Hm & Hfill & _).
@@ -315,7 +313,7 @@ Section Emitted2.
         destruct (Hinside (map aexpr a2) (map fst k2) (map (fun kv => aexpr (snd kv)) k2)
                           (fun x' _ Hx => Hconserve m a2 k2 Hfill x' Hx) r Hr) as [Hc Hs].
         eapply through_callbacks; eauto.
-      + constructor; [|constructor]. rewrite method_site_eq, hk_node, Emc. cbn [snd fst].
+      + constructor; [|constructor]. rewrite method_site_eq, hk_node, Ecb, Emc. cbn [snd fst].
         split; [|apply within_here; reflexivity]. eapply rewritten_is_call; [exact Hrw | reflexivity].
     - (* really calling the collection object's method *)
       assert (Hns : forall bo' m' a' k' it', PNone (A:=aarg) <> PStream bo' m' a' k' it') by discriminate.
@@ -328,15 +326,16 @@ Section Emitted2.
       destruct targs as [|item' targs]; [discriminate|].
       destruct a2 as [|x [|y r0]]; [| |discriminate]; inversion Hst; subst item'.
       + inversion Hex; subst best. cbn [mr_obj mr_node mr_ev mr_ty] in H.
-        pose proof (method_callbacks_rewritten W (TCls c (item :: targs)) m (Call (Attr v' a) [] (map fst k2) (map (fun kv => aexpr (snd kv)) k2))) as Hrw.
-        destruct (method_callbacks W (TCls c (item :: targs)) m _) as [site evs] eqn:Emc. cbn [fst] in Hrw.
+        destruct (callbacks_of W tv a (TCls c (item :: targs), m)) as [cbo cm] eqn:Ecb.
+        pose proof (method_callbacks_rewritten W cbo cm (Call (Attr v' a) [] (map fst k2) (map (fun kv => aexpr (snd kv)) k2))) as Hrw.
+        destruct (method_callbacks W cbo cm _) as [site evs] eqn:Emc. cbn [fst] in Hrw.
         inversion H; subst out t ev.
         rewrite !app_assoc. apply Forall_app. split.
         * rewrite <- !app_assoc. apply Forall_forall. intros r Hr.
           destruct (Hinside [] (map fst k2) (map (fun kv => aexpr (snd kv)) k2)
                             (fun x' _ Hx => Hconserve m [] k2 Hfill x' Hx) r Hr) as [Hc Hs].
           eapply through_callbacks; eauto.
-        * cbn [map]. constructor; [|constructor]. rewrite method_site_eq, hk_node, Emc. cbn [snd fst].
+        * cbn [map]. constructor; [|constructor]. rewrite method_site_eq, hk_node, Ecb, Emc. cbn [snd fst].
           split; [|apply within_here; reflexivity]. eapply rewritten_is_call; [exact Hrw | reflexivity].
       + pose proof (Forall_inv Ha2) as Hx.
         assert (Hxk : exists p k, snd x = NLam p k /\
@@ -353,8 +352,9 @@ Section Emitted2.
         unfold nlam_rec in Hx. rewrite Hsx in Hx. destruct Hx as (b & Hfx & Hbody).
         destruct (Hbody _ _ _ _ Hk) as [Hout Hrecs].
         set (node := Call (Attr v' a) [Lambda [p] b'] (map fst k2) (map (fun kv => aexpr (snd kv)) k2)) in *.
-        pose proof (method_callbacks_rewritten W (TCls c (item :: targs)) m node) as Hrw.
-        destruct (method_callbacks W (TCls c (item :: targs)) m node) as [site evs] eqn:Emc. cbn [fst] in Hrw.
+        destruct (callbacks_of W tv a (TCls c (item :: targs), m)) as [cbo cm] eqn:Ecb.
+        pose proof (method_callbacks_rewritten W cbo cm node) as Hrw.
+        destruct (method_callbacks W cbo cm node) as [site evs] eqn:Emc. cbn [fst] in Hrw.
         inversion H; subst out t ev.
         cbn [map]. change (aexpr x) with (fst x). rewrite Hfx.
         rewrite !app_assoc. apply Forall_app. split; [apply Forall_app; split|].
@@ -370,7 +370,7 @@ Section Emitted2.
           eapply Forall_impl; [|exact Hrecs]. intros r [Hc Hw].
           eapply through_callbacks; eauto.
           exists (Lambda [p] b'). split; [cbn; auto|]. eapply within_child; [|exact Hw]. cbn; auto.
-        * constructor; [|constructor]. rewrite method_site_eq, hk_node, Hout. fold node. rewrite Emc. cbn [snd fst].
+        * constructor; [|constructor]. rewrite method_site_eq, hk_node, Hout, Ecb. fold node. rewrite Emc. cbn [snd fst].
           split; [|apply within_here; reflexivity]. eapply rewritten_is_call; [exact Hrw | reflexivity].
   Qed.
 End Emitted2.
@@ -499,12 +499,7 @@ Section Emitted4.
       assert (Hia : incl args (children (Call e args kwn kwv))) by (cbn; intros x Hx; right; apply in_or_app; auto).
       assert (Hik : incl kwv (children (Call e args kwn kwv))) by (cbn; intros x Hx; right; apply in_or_app; auto).
       assert (Hlen : length kwn = length kwv) by (eapply Hwf; apply within_here; reflexivity).
-      assert (Hcases : (exists v a, e = Attr v a) \/ (exists v a s, e = Subscript (Attr v a) s) \/ plain_callee e).
-      { destruct e; try (right; right; exact I); try (left; eauto; fail).
-        match goal with |- context [plain_callee (Subscript ?x ?y)] => destruct x end;
-          try (right; right; exact I).
-        right; left; eauto. }
-      destruct Hcases as [(v & a & ->)|[(v & a & s & ->)|Hplain]].
+      destruct (callee_cases e) as [(v & a & ->)|[(v & a & s & ->)|[(ps & b & ->)|Hplain]]].
       + rewrite fx_Call_method in HE.
         inv_bind HE x Hv. destruct x as [[[v' tv] auxv] ev0].
         inv_bind HE ta Hat. inv_bind HE x Hargs. destruct x as [[args' ts1] ev1].
@@ -585,6 +580,30 @@ Section Emitted4.
              exists x'. split; [cbn; right; apply in_or_app; auto | exact Hw].
           -- constructor; [|constructor]. unfold param_site. cbn [snd]. split; [|apply within_here; reflexivity].
              eapply rewritten_is_call; [exact Hrw | reflexivity].
+      + (* an immediately called lambda *)
+        rewrite fx_Call_lambda in HE.
+        inv_bind HE x Hargs. destruct x as [[args' ts1] ev1].
+        inv_bind HE x Hkwv. destruct x as [[kwv' ts2] ev2].
+        pose proof (list_recs n G _ _ _ _ _ H Hwf Hn Hia Hargs) as HRa.
+        pose proof (list_recs n G _ _ _ _ _ H0 Hwf Hn Hik Hkwv) as HRk.
+        assert (Hlam : sites_n W n G (Lambda ps b) = []) by (destruct n; reflexivity).
+        rewrite Hlam. cbn [app own_sites]. rewrite (fl_types _ _ _ _ _ _ Hargs).
+        assert (Hf_fuel : size (Lambda ps b) <= n) by (eapply child_fuel; [exact Hn | cbn; auto]).
+        assert (Hfw : kw_wf (Lambda ps b)) by (eapply kw_wf_child; [exact Hwf | cbn; auto]).
+        destruct (called_ok ps args kwn kwv).
+        * inv_bind HE x Hb. destruct x as [[[b' tb] auxb] ev3]. inversion HE; subst e' t aux ev.
+          repeat (apply Forall_app; split).
+          -- eapply Forall_okrec_in_children; [|exact HRa]. cbn. intros x Hx. right. apply in_or_app; auto.
+          -- eapply Forall_okrec_in_children; [|exact HRk]. cbn. intros x Hx. right. apply in_or_app; auto.
+          -- destruct IHe as [_ Hsub]. cbn in Hsub.
+             assert (Hrb : Forall (okrec b') (sites_n W n (bind_params ps ts1 G) b)).
+             { eapply Hsub; [|cbn in Hf_fuel; lia|exact Hb]. eapply kw_wf_child; [exact Hfw | cbn; auto]. }
+             eapply Forall_impl; [|exact Hrb]. intros r [Hc Hw]. split; [exact Hc|].
+             apply (within_child _ _ (Lambda ps b')); [cbn; auto|].
+             apply (within_child _ (Lambda ps b') b'); [cbn; auto | exact Hw].
+        * inversion HE; subst e' t aux ev. rewrite app_nil_r. apply Forall_app; split.
+          -- eapply Forall_okrec_in_children; [|exact HRa]. cbn. intros x Hx. right. apply in_or_app; auto.
+          -- eapply Forall_okrec_in_children; [|exact HRk]. cbn. intros x Hx. right. apply in_or_app; auto.
       + rewrite fx_Call_plain in HE by exact Hplain.
         inv_bind HE x Hf. destruct x as [[[f' tf] auxf] ev0].
         inv_bind HE x Hargs. destruct x as [[args' ts1] ev1].
